@@ -68,12 +68,108 @@ def oer_unbounded_array(rt, t, seen=()):
     return False
 
 
-def hostile_inputs(ctx, c, enc, others, n):
+def tlv_parse(data, pos=0, end=None):
+    """Definite-length TLV forest of a DER/BER encoder output: [(identifier octets, children | None, contents)]."""
+    end = len(data) if end is None else end
+    out = []
+    while pos < end:
+        start = pos
+        first = data[pos]
+        pos += 1
+        if first & 0x1f == 0x1f:
+            while data[pos] & 0x80:
+                pos += 1
+            pos += 1
+        ident = data[start:pos]
+        l0 = data[pos]
+        pos += 1
+        if l0 & 0x80:
+            n = l0 & 0x7f
+            length = int.from_bytes(data[pos:pos + n], 'big')
+            pos += n
+        else:
+            length = l0
+        body = data[pos:pos + length]
+        kids = None
+        if first & 0x20:
+            try:
+                kids = tlv_parse(data, pos, pos + length)
+            except Exception:
+                kids = None
+        out.append([bytes(ident), kids, bytes(body)])
+        pos += length
+    return out
+
+
+def tlv_write(nodes, rng, st):
+    out = b''
+    for ident, kids, body in nodes:
+        if kids is not None:
+            content = tlv_write(kids, rng, st)
+            if st.get('indef') is not None and st['count'] == st['indef']:
+                # this constructed node becomes indefinite length; optionally without end-of-contents
+                st['count'] += 1
+                out += ident + b'\x80' + content + (b'' if st.get('drop_eoc') else b'\x00\x00')
+                continue
+            st['count'] += 1
+        else:
+            content = body
+        n = len(content)
+        le = bytes([n]) if n < 128 else bytes([0x80 | ((n.bit_length() + 7) // 8)]) + n.to_bytes((n.bit_length() + 7) // 8, 'big')
+        out += ident + le + content
+    return out
+
+
+def count_constructed(nodes):
+    return sum(1 + count_constructed(k) for _, k, _ in nodes if k is not None)
+
+
+def retag_one(nodes, rng):
+    flat = []
+
+    def walk(ns):
+        for n in ns:
+            flat.append(n)
+            if n[1] is not None:
+                walk(n[1])
+    walk(nodes)
+    if not flat:
+        return
+    n = rng.choice(flat)
+    b = bytearray(n[0])
+    b[0] = (b[0] & 0x20) | rng.choice([0x01, 0x02, 0x04, 0x05, 0x0c, 0x10, 0x80, 0x81, 0x40, 0xc3, 0x1e])
+    if b[0] & 0x1f == 0x1f:
+        b[0] ^= 1
+    n[0] = bytes(b[:1])
+
+
+def tlv_hostile(rng, enc):
+    """TLV-aware hostile variant of a valid BER/DER encoding: a constructed node rewritten to indefinite
+    length (with or without end-of-contents), a substituted tag somewhere, or both."""
+    try:
+        nodes = tlv_parse(enc)
+    except Exception:
+        return None
+    k = count_constructed(nodes)
+    st = {'count': 0, 'indef': rng.randrange(k) if k and rng.random() < .8 else None, 'drop_eoc': rng.random() < .25}
+    if rng.random() < .7 or st['indef'] is None:
+        retag_one(nodes, rng)
+    try:
+        return tlv_write(nodes, rng, st)
+    except Exception:
+        return None
+
+
+def hostile_inputs(ctx, c, enc, others, n, codec=None):
     rng = ctx.rng
     out = []
     for _ in range(n):
         p = rng.random()
-        if p < .7:
+        if codec in ('ber', 'der') and p < .35:
+            d = tlv_hostile(rng, enc)
+            if d is None:
+                d = CC.mutate_bytes(rng, enc)
+        elif p < .7:
             d = CC.mutate_bytes(rng, enc, rng.choice(others) if others else None)
             if rng.random() < .3:
                 d = CC.mutate_bytes(rng, d)
@@ -124,7 +220,7 @@ def run(ctx):
             encs.append((c, e[1]))
         for c, enc in encs:
             others = [x for _, x in encs[:20]]
-            for d in hostile_inputs(ctx, c, enc, others, per_case):
+            for d in hostile_inputs(ctx, c, enc, others, per_case, codec):
                 jid = len(jobs)
                 deadline = 4.0 + 0.004 * len(d)
                 jobs.append(dict(id=jid, spec=c.text, codec=codec, numeric=False, type=c.tname, data=d.hex(),
